@@ -184,6 +184,26 @@ def history_check(rnd, n_hist, hist_len):
             warnings.simplefilter("ignore")
             after = probe(ts)
             fresh = probe(CompleteSet())
+        # two series with the same name, dtype and values but another index, one after the other on the same typeset:
+        # each result carries ITS input's index and is a distinct object
+        with warnings.catch_warnings():
+            warnings.simplefilter("ignore")
+            for r in PROBES:
+                try:
+                    s1 = streams.build(r)
+                    if not len(s1):
+                        continue
+                    s2 = s1.copy()
+                    s2.index = [f"r{i}" for i in range(len(s2))]
+                    c1, c2 = ts.cast_to_inferred(s1), ts.cast_to_inferred(s2)
+                    d1, d2 = ts.infer(s1)[0], ts.infer(s2)[0]
+                except Exception:  # noqa
+                    continue
+                if list(c2.index) != list(s2.index) or list(d2.index) != list(s2.index) or list(c1.index) != list(s1.index) or (c2 is c1):
+                    fails.append({"what": f"probe {r}: after the same call on a series with the same values and index {list(s1.index)[:3]}, cast_to_inferred / infer of the series with index "
+                                          f"{list(s2.index)[:3]} returned index {list(c2.index)[:3]} / {list(d2.index)[:3]} (the earlier call's result)",
+                                  "class": "history-dependent:index", "history": h, "recipe": r})
+                    break
         if after != before:
             k = next(i for i, (a, b) in enumerate(zip(before, after)) if a != b)
             fails.append({"what": f"probe {(PROBES + FRAME_PROBES)[k]} answered {before[k]} before and {after[k]} after a history of API calls on the same typeset object",
